@@ -153,12 +153,25 @@ def _thread_results(blocks, origin, meta):
         if blk.get("cleanup"):
             continue
         src = None
+        extra = set()       # copies of the value made in the block that builds it (arguments of an inlined call)
         for st in blk["stmts"]:
             if st["k"] == "assign" and not st["lhs"]["p"] and st["rv"]["k"] == "agg" and \
                     st["rv"].get("def") == "std::result::Result" and st["rv"].get("vn") in ("Ok", "Err"):
                 src = (st["lhs"]["l"], "ok" if st["rv"]["vn"] == "Ok" else "err")
+                extra = set()
+            elif st["k"] == "assign" and not st["lhs"]["p"] and st["rv"]["k"] == "agg" and st["rv"].get("ak") == "adt" \
+                    and isinstance(st["rv"].get("variant"), int) and st["rv"].get("enum_like", True) and \
+                    st["rv"].get("def") not in ("std::result::Result",) and st["rv"].get("vn") is not None:
+                # a literal variant of any enum (`SegmentEnd::Sealed`, `None`) handed to an inlined helper that matches
+                # on it: the match is decided
+                src = (st["lhs"]["l"], st["rv"]["variant"])
+                extra = set()
             elif st["k"] == "assign" and not st["lhs"]["p"] and src is not None and st["lhs"]["l"] == src[0]:
                 src = None
+            elif st["k"] == "assign" and not st["lhs"]["p"] and src is not None and st["rv"]["k"] == "use":
+                pl0 = st["rv"]["op"].get("move") or st["rv"]["op"].get("copy")
+                if pl0 is not None and not pl0["p"] and (pl0["l"] == src[0] or pl0["l"] in extra):
+                    extra.add(st["lhs"]["l"])
         t = blk["term"]
         nxt = None
         if t["k"] == "call" and not t["dest"]["p"] and (t.get("callee") or {}).get("_np") == FROM_RESIDUAL or (
@@ -170,7 +183,7 @@ def _thread_results(blocks, origin, meta):
             nxt = t["t"]
         if src is None or nxt is None:
             continue
-        tracked = {src[0]}
+        tracked = {src[0]} | extra
         pol = src[1]
         chain = []
         cur = nxt
@@ -221,7 +234,8 @@ def _thread_results(blocks, origin, meta):
                 pl = ct["discr"].get("move") or ct["discr"].get("copy")
                 if pl is not None and not pl["p"] and pl["l"] in dvars:
                     listed = dict((v, x) for v, x in ct["targets"])
-                    target = listed.get(0 if pol == "ok" else 1, ct["otherwise"])
+                    want = pol if isinstance(pol, int) else (0 if pol == "ok" else 1)
+                    target = listed.get(want, ct["otherwise"])
                     chain.append(cur)
                 break
             break
